@@ -22,14 +22,14 @@ pub fn def() -> CheckDef {
                applications f(g(a)) and variable names that look like generated constants) piped through the real convert-aeon-to-bnet binary. \
                Observed: exit status, stderr, and the output parsed by the harness's own .bnet reader. Per variable with a regulator or a \
                function: { truth table of the output function | all values of the fresh constants } must equal { truth table of the input \
-               function | all interpretations of its unknown functions } (regulation constraints dropped); targets must be exactly those \
+               function | all interpretations of its unknown functions } (regulation constraints dropped); additionally the JOINT family over all variables must agree (a symbol shared by several update functions is one function); targets must be exactly those \
                variables; fresh constants must not be original variables. Non-trivial: the network has an unknown function of arity >= 1; \
                distinct by network text.",
         assumptions: &["variable names are plain identifiers acceptable to the .bnet format", "truth tables are enumerated over all network variables (<= 5) and all fresh constants (<= 16)"],
         cases: |t| if t == Tier::Quick { 3000 } else { 60_000 },
         needs: |t| {
             let m = if t == Tier::Quick { 1 } else { 40 };
-            vec![("distinct_nontrivial", 100 * m), ("var_implicit", 50 * m), ("var_named_unknown", 50 * m), ("var_fully_specified", 50 * m), ("net_shared_symbol", 20 * m), ("net_nested_application", 10 * m), ("net_name_like_constant", 10 * m), ("families_compared", 500 * m)]
+            vec![("distinct_nontrivial", 100 * m), ("var_implicit", 50 * m), ("var_named_unknown", 50 * m), ("var_fully_specified", 50 * m), ("net_shared_symbol", 20 * m), ("joint_families_compared", 500 * m), ("net_nested_application", 10 * m), ("net_name_like_constant", 10 * m), ("families_compared", 500 * m)]
         },
         run,
         prelude: None,
@@ -258,6 +258,88 @@ fn run(rng: &mut Rng, _idx: u64, tier: Tier) -> CaseOut {
                 detail(&format!("variable {name}")),
             );
             return out;
+        }
+    }
+    // the JOINT family: an uninterpreted function used by several variables is one function, so the tuple of all
+    // output functions (over all values of the fresh constants) must range over exactly the tuples the input admits
+    // (over all interpretations of its unknown functions); checked when both enumerations are small
+    {
+        let target_ids: Vec<usize> = (0..n).filter(|v| targets.contains_key(&net.names[*v])).collect();
+        let out_exprs: Vec<Expr> = target_ids.iter().map(|v| parse_expr(&targets[&net.names[*v]], &net.names).unwrap()).collect();
+        let mut consts = BTreeMap::new();
+        for e in &out_exprs {
+            e.params(&mut consts);
+        }
+        let const_names: Vec<String> = consts.keys().cloned().collect();
+        let mut named = BTreeMap::new();
+        for f in net.funcs.iter().flatten() {
+            f.params(&mut named);
+        }
+        let mut rows: Vec<(Option<String>, usize, usize)> = named.iter().flat_map(|(p, a)| (0..(1usize << a)).map(move |r| (Some(p.clone()), 0usize, r))).collect();
+        for v in &target_ids {
+            if net.funcs[*v].is_none() {
+                for r in 0..(1usize << net.regulators(*v).len()) {
+                    rows.push((None, *v, r));
+                }
+            }
+        }
+        if const_names.len() <= 14 && rows.len() <= 14 {
+            let mut out_joint = BTreeSet::new();
+            for m in 0..(1u32 << const_names.len()) {
+                let mut interp = Interp::default();
+                for (i, c) in const_names.iter().enumerate() {
+                    interp.named.insert(c.clone(), vec![(m >> i) & 1 == 1]);
+                }
+                out_joint.insert(out_exprs.iter().map(|e| truth_table(e, n, &interp)).collect::<Vec<u32>>());
+            }
+            let mut in_joint = BTreeSet::new();
+            for m in 0..(1u32 << rows.len()) {
+                let mut interp = Interp::default();
+                for (p, a) in &named {
+                    interp.named.insert(p.clone(), vec![false; 1 << a]);
+                }
+                for v in &target_ids {
+                    if net.funcs[*v].is_none() {
+                        interp.implicit.insert(*v, vec![false; 1 << net.regulators(*v).len()]);
+                    }
+                }
+                for (i, (p, v, r)) in rows.iter().enumerate() {
+                    let bit = (m >> i) & 1 == 1;
+                    match p {
+                        Some(p) => interp.named.get_mut(p).unwrap()[*r] = bit,
+                        None => interp.implicit.get_mut(v).unwrap()[*r] = bit,
+                    }
+                }
+                let tuple: Vec<u32> = target_ids
+                    .iter()
+                    .map(|v| {
+                        let mut t = 0u32;
+                        for st in 0..(1u32 << n) {
+                            if net.update(*v, st, &interp) {
+                                t |= 1 << st;
+                            }
+                        }
+                        t
+                    })
+                    .collect();
+                in_joint.insert(tuple);
+            }
+            out.count("joint_families_compared");
+            if in_joint != out_joint {
+                out.violate(
+                    "joint family of the output functions differs from the input's",
+                    format!(
+                        "the input admits {} combinations of update functions for {:?}, the output ranges over {} ({} only in input, {} only in output)",
+                        in_joint.len(),
+                        target_ids.iter().map(|v| net.names[*v].clone()).collect::<Vec<_>>(),
+                        out_joint.len(),
+                        in_joint.difference(&out_joint).count(),
+                        out_joint.difference(&in_joint).count()
+                    ),
+                    detail("joint family"),
+                );
+                return out;
+            }
         }
     }
     if out.nontrivial {
